@@ -1,3 +1,6 @@
 From Coq Require Import Extraction ExtrOcamlBasic.
-From SqfsV Require Import C12.ListN C12.IoModel.
-Extraction "c12_model.ml" run run_ops op_client ops_client istate_init spec_gl.
+From SqfsV Require Import C12.ListN C12.IoModel C12.Eagain.
+(* run_k / classify: the errno-carrying kernel stream of C12/Eagain.v (EAGAIN = KErrno 11);
+   the *_k loops are extracted so that the driver can re-observe the simulation lemmas *)
+Extraction "c12_model.ml" run run_ops op_client ops_client istate_init spec_gl
+  run_k classify c_EINTR c_EIO c_EAGAIN refill_k write_all_k read_at_loop_k write_at_loop_k ftruncate_loop_k.
